@@ -37,7 +37,7 @@ RULE = (
 ASSUMPTIONS = ["expand_indices is applied to scalar, free-index-free expressions after expand_derivatives (its documented precondition)"]
 BUDGET = {"quick": 50, "thorough": 450}
 NCASES = {"quick": 3000, "thorough": 60000}
-FLOORS = {"quick": {"case_held": 400, "nontrivial": 250}, "thorough": {"case_held": 9000, "nontrivial": 5000}}
+FLOORS = {'quick': {'case_held': 400, 'nontrivial': 250}, 'thorough': {'case_held': 9000, 'nontrivial': 5000, 'suite:expand_indices:held': 30, 'suite:renumber_indices:held': 200}}
 COVER_FLOORS = {"quick": {"passes_held": ["expand_indices", "remove_component_tensors", "renumber_indices"]}, "thorough": {"passes_held": ["expand_indices", "remove_component_tensors", "renumber_indices"]}}
 CELLS = [("interval", 1), ("triangle", 2), ("triangle", 2), ("tetrahedron", 3)]
 PASSES = ["expand_indices", "remove_component_tensors", "renumber_indices"]
@@ -141,3 +141,15 @@ def _free_index_nodes(e):
         if getattr(o, "ufl_free_indices", ()):
             yield o
         stack.extend(o.ufl_operands)
+
+
+# ---- additional workload (thorough tier): the repository's own test-suite with this property's passes monitored
+EXTRA_JOBS = {"thorough": ["suite"]}
+SUITE_TARGETS = ['remove_component_tensors', 'expand_indices', 'renumber_indices']
+
+
+def extra_suite(ctx):
+    """Every call the repository's tests make to the monitored passes is judged by the same value oracle (vf/suitemon.py)."""
+    from ..suite_driver import run_suite
+
+    run_suite(ctx, SUITE_TARGETS, "C10")
